@@ -38,7 +38,9 @@ impl<const BITS: usize, const LIMBS: usize> Decode for Uint<BITS, LIMBS> {
                 expected: nbytes(BITS),
             });
         }
-        Ok(Self::from_le_slice(bytes))
+        Self::try_from_le_slice(bytes).ok_or_else(|| {
+            DecodeError::BytesInvalid(format!("value is too large for Uint<{BITS}>"))
+        })
     }
 }
 
